@@ -18,10 +18,10 @@ def r1(ctx):
     ctx.require(init is not None, "ArgumentParser.__init__ missing")
     pth = init.params[1]
     ok = any(isinstance(s, ast.Assign) and u(s.targets[0]) == "self.name" and u(s.value) == f"os.path.basename({pth})" for s in init.node.body)
-    ctx.check(ok, "config:ArgumentParser.__init__:basename", "the compiler must be identified by the base name of argv[0]", init.loc())
+    ctx.soft(ok, "config:ArgumentParser.__init__:basename", "the compiler must be identified by the base name of argv[0]", init.loc())
     unk = [s for s in init.node.body if isinstance(s, ast.If) and u(s.test) == "self.name not in _compilers"]
     ok = len(unk) == 1 and any(isinstance(x, ast.Call) and u(x.func) == "log.warning" for x in ast.walk(unk[0])) and isinstance(unk[0].body[-1], ast.Return)
-    ctx.check(ok, "config:ArgumentParser.__init__:unknown-compiler-warned", "an unknown compiler must be reported with a warning and get the empty default behaviour", init.loc())
+    ctx.soft(ok, "config:ArgumentParser.__init__:unknown-compiler-warned", "an unknown compiler must be reported with a warning and get the empty default behaviour", init.loc())
     loops = [s for s in init.node.body if isinstance(s, ast.While)]
     ctx.require(len(loops) == 1, "ArgumentParser.__init__: alias resolution loop not found")
     lp = loops[0]
@@ -51,13 +51,13 @@ def r1(ctx):
         ctx.check(ok, key, "every iteration must (1) read the alias of the last visited name, (2) report a loop and stop if it was visited before, (3) otherwise remember it unconditionally", init.loc(lp))
         dang = [s for s in lp.body if isinstance(s, ast.If) and " not in _compilers" in u(s.test)]
         ok = len(dang) == 1 and isinstance(dang[0].body[-1], ast.Return) and any(isinstance(x, ast.Call) and u(x.func) == "log.error" for x in ast.walk(dang[0]))
-        ctx.check(ok, "config:ArgumentParser.__init__:dangling-alias-reported", "an alias of an unknown compiler must be reported and end the walk", init.loc(lp))
+        ctx.soft(ok, "config:ArgumentParser.__init__:dangling-alias-reported", "an alias of an unknown compiler must be reported and end the walk", init.loc(lp))
         fin = [s for s in init.node.body if isinstance(s, ast.Assign) and u(s.targets[0]) == "self.compiler" and s.lineno > lp.lineno]
         ok = len(fin) == 1 and u(fin[0].value) in (f"_compilers[{visited}[-1]]", "_compilers[alias]")
         if ok and u(fin[0].value) == "_compilers[alias]":
             a = [s for s in init.node.body if isinstance(s, ast.Assign) and u(s.targets[0]) == "alias" and s.lineno > lp.lineno]
             ok = len(a) == 1 and u(a[0].value) == f"{visited}[-1]"
-        ctx.check(ok, "config:ArgumentParser.__init__:resolves-to-chain-end", "the compiler used must be the end of the alias chain", init.loc())
+        ctx.soft(ok, "config:ArgumentParser.__init__:resolves-to-chain-end", "the compiler used must be the end of the alias chain", init.loc())
     ctx.floor(3)
 
 
@@ -73,7 +73,7 @@ def r2(ctx):
         "modes-set": "args.modes = set(args.modes)",
     }
     for k, t in src.items():
-        ctx.check(t in body, f"config:ArgumentParser.parse_args:{k}", f"expected `{t}`", f.loc())
+        ctx.soft(t in body, f"config:ArgumentParser.parse_args:{k}", f"expected `{t}`", f.loc())
     loops = [n for n in walk_no_nested(f.node) if isinstance(n, ast.For) and u(n.iter) == "args.passes"]
     ctx.require(len(loops) == 1, "parse_args: loop over args.passes not found")
     lp = loops[0]
@@ -89,19 +89,19 @@ def r2(ctx):
         "one-config-per-pass": "configurations.append(config)",
     }
     for k, pat in checks.items():
-        ctx.check(_loose(pat) in _loose(t), f"config:ArgumentParser.parse_args:{k}", f"expected `{pat}` in the per-pass loop", f.loc(lp))
+        ctx.soft(_loose(pat) in _loose(t), f"config:ArgumentParser.parse_args:{k}", f"expected `{pat}` in the per-pass loop", f.loc(lp))
     ml = [n for n in ast.walk(lp) if isinstance(n, ast.For) and u(n.iter) == "modes"]
-    ctx.check(len(ml) == 1, "config:ArgumentParser.parse_args:modes-loop", "every mode of the pass must be applied", f.loc(lp))
+    ctx.soft(len(ml) == 1, "config:ArgumentParser.parse_args:modes-loop", "every mode of the pass must be applied", f.loc(lp))
     # _update extends all three lists from the pass/mode
     up = repo.cls("config", "PreprocessorConfiguration").find_method("_update")
     p = up.params[1]
     for fld in ("defines", "include_paths", "include_files"):
-        ctx.check(f"self.{fld}.extend({p}.{fld})" in u(up.node), f"config:PreprocessorConfiguration._update:{fld}", f"a pass/mode must contribute its {fld}", up.loc())
+        ctx.soft(f"self.{fld}.extend({p}.{fld})" in u(up.node), f"config:PreprocessorConfiguration._update:{fld}", f"a pass/mode must contribute its {fld}", up.loc())
     # load_database: one entry per configuration, appended
     ld = repo.func("config", "load_database")
     lps = [n for n in walk_no_nested(ld.node) if isinstance(n, ast.For) and u(n.iter) == "preprocessor_configs"]
     ok = len(lps) == 1 and any(isinstance(s, ast.AugAssign) and u(s) == "configuration += [entry]" for s in lps[0].body)
-    ctx.check(ok, "config:load_database:one-entry-per-pass", "every pass configuration must yield one database entry", ld.loc())
+    ctx.soft(ok, "config:load_database:one-entry-per-pass", "every pass configuration must yield one database entry", ld.loc())
     # finder.find associates every entry of a platform under the platform's name (C08.R1 checks the Platform ctor)
     ctx.floor(4 + 7 + 1 + 3 + 1)
 
@@ -137,7 +137,7 @@ def r3(ctx):
     lc = repo.func("config", "_load_compilers")
     lst = [n for n in walk_no_nested(lc.node) if isinstance(n, ast.For) and isinstance(n.iter, ast.List) and all(isinstance(e, ast.Constant) for e in n.iter.elts)]
     loaded = [e.value for e in lst[0].iter.elts] if lst else []
-    ctx.check(sorted(loaded) == sorted(COMPILER_FILES), "config:_load_compilers:files", f"loader reads {loaded}; the built-in definition files are {COMPILER_FILES}", lc.loc())
+    ctx.soft(sorted(loaded) == sorted(COMPILER_FILES), "config:_load_compilers:files", f"loader reads {loaded}; the built-in definition files are {COMPILER_FILES}", lc.loc())
     for cname, (fname, c) in sorted(allc.items()):
         loc = f"codebasin/compilers/{fname}.toml"
         if "alias_of" in c:
@@ -179,6 +179,8 @@ def r3(ctx):
                     pre = fmt.split("$value")[0]
                     if not any(p.startswith(pre) for p in passes):
                         ok, why = False, f"no declared pass matches the format {fmt!r}"
+            if ok and dest in ("defines", "include_paths", "include_files") and opt.get("action") in ("store_split", "store", "store_const"):
+                ok, why = False, f"action {opt.get('action')!r} REPLACES the {dest} collected so far (every earlier -D/-I/-include of the command is lost); list destinations need an appending action"
             if ok and opt.get("action") == "extend_match":
                 try:
                     re.compile(opt.get("pattern", ""))
@@ -241,7 +243,7 @@ def r5(ctx):
         "new-compiler-added": "if name not in _compilers:\n    _compilers[name] = _Compiler.from_toml(definition)\n    continue",
     }
     for k, pat in pats.items():
-        ctx.check(_loose(pat) in _loose(t), f"config:_load_compilers:{k}", f"expected `{pat}`: a user definition of a built-in compiler must add to (not replace) its options, parser rules, modes and passes", lc.loc())
+        ctx.soft(_loose(pat) in _loose(t), f"config:_load_compilers:{k}", f"expected `{pat}`: a user definition of a built-in compiler must add to (not replace) its options, parser rules, modes and passes", lc.loc())
     # no plain re-binding of the merged attributes
     for s in walk_no_nested(lc.node):
         if isinstance(s, ast.Assign) and isinstance(s.targets[0], ast.Attribute) and u(s.targets[0].value) == "compiler" and s.targets[0].attr in ("options", "parser", "modes", "passes"):
@@ -258,3 +260,56 @@ def r6(ctx):
     from .c08 import r3 as c08r3
 
     c08r3(ctx)
+
+
+CBICONFIG_ACCEPT = [
+    {},
+    {"compiler": {}},
+    {"compiler": {"mycc": {"alias_of": "gcc"}}},
+    {"compiler": {"gcc": {"options": ["-D", "X", "-D", "Y", "-I", "a", "-I", "a"]}}},
+    {"compiler": {"gcc": {"options": ["-DX", "-DX"]}}},
+    {"compiler": {"gcc": {"parser": [{"flags": ["-fPIC"], "action": "store_true"}]}}},
+    {"compiler": {"gcc": {"parser": [{"flags": ["-t", "--targets"], "action": "store_split", "sep": ",", "format": "t-$value", "dest": "passes", "default": ["t-a"]}]}}},
+    {"compiler": {"gcc": {"parser": [{"flags": ["--arch"], "action": "extend_match", "pattern": "(x)", "dest": "passes", "default": "a", "override": True}]}}},
+    {"compiler": {"gcc": {"modes": [{"name": "m"}, {"name": "n", "defines": ["A", "A"], "include_paths": ["p"], "include_files": ["f.h"]}]}}},
+    {"compiler": {"gcc": {"passes": [{"name": "p", "defines": ["A"], "include_paths": ["p"], "include_files": ["f.h"], "modes": ["m"]}]}}},
+]
+CBICONFIG_REJECT = [
+    {"compiler": {"gcc": {"options": "-DX"}}},
+    {"compiler": {"gcc": {"modes": [{"defines": ["A"]}]}}},
+    {"compiler": {"gcc": {"parser": [{"flags": "-x"}]}}},
+    {"compiler": {"gcc": {"alias_of": 3}}},
+]
+
+
+@rule("C12.R9", "the configuration schema accepts every legal user configuration (a rejected file is dropped as a whole) and rejects malformed ones")
+def r9(ctx):
+    import json as _json
+
+    repo = ctx.repo
+    schema = repo.json("schema/cbiconfig.schema")
+    try:
+        import jsonschema
+    except Exception as e:  # pragma: no cover
+        raise AnalysisError(f"jsonschema unavailable: {e}")
+    loc = "codebasin/schema/cbiconfig.schema"
+    try:
+        jsonschema.Draft202012Validator.check_schema(schema)
+    except Exception as e:
+        ctx.violation("schema:cbiconfig:well-formed", f"not a valid JSON schema: {e}", loc)
+        return
+    for inst in CBICONFIG_ACCEPT:
+        key = "schema:cbiconfig:accepts:" + _json.dumps(inst)[:80]
+        try:
+            jsonschema.validate(instance=inst, schema=schema)
+            ctx.ok(key)
+        except jsonschema.exceptions.ValidationError as e:
+            ctx.violation(key, f"a legal configuration is rejected ({e.message[:100]}): _load_compilers logs the error and drops the WHOLE user configuration (options, parser rules, modes, aliases)", loc)
+    for inst in CBICONFIG_REJECT:
+        key = "schema:cbiconfig:rejects:" + _json.dumps(inst)[:80]
+        try:
+            jsonschema.validate(instance=inst, schema=schema)
+            ctx.violation(key, "a malformed configuration passes validation", loc)
+        except jsonschema.exceptions.ValidationError:
+            ctx.ok(key)
+    ctx.floor(len(CBICONFIG_ACCEPT) + len(CBICONFIG_REJECT))
